@@ -829,6 +829,14 @@ val pipeline_ok : pipeline -> bool
 
 val marshal_json : pipeline -> json option
 
+val all_digits : string -> bool
+
+val int_token : string -> bool
+
+val gv_of_json : json -> gv
+
+val reparse_json : pipeline -> pipeline res
+
 val status_sexp : pipeline -> nat -> sexp
 
 val count_step : step0 -> nat
@@ -836,6 +844,8 @@ val count_step : step0 -> nat
 val count_steps : step0 list -> nat
 
 val run5 : sexp -> sexp
+
+val run_reparse : sexp -> sexp
 
 type ynode =
 | YScalar of bool * string option * gv option
